@@ -242,13 +242,15 @@ def C16():
         Kani("c16_rc4_step", "Rc4::next from an arbitrary state (i, j, S[256]): keystream byte, index update and swap equal the RC4 reference step; no other entry of S changes", bounds={"state": "any 256-byte S, any i, j"},
              symbolic=["i", "j", "S[256]", "probe index"], functions=["nla::rc4::Rc4::next"], timeout=900, mem_gb=8),
         Kani("c16_rc4_process_carries_state", "Rc4::process: output = input xor keystream; processing a then b equals processing a||b from any state (cipher state carries over between messages)", bounds={"bytes": 3, "state": "arbitrary"},
-             symbolic=["i", "j", "S[256]", "3 data bytes"], functions=["nla::rc4::Rc4::process", "nla::rc4::Rc4::next"], timeout=1200, mem_gb=10),
+             symbolic=["i", "j", "S[256]", "3 data bytes"], functions=["nla::rc4::Rc4::process", "nla::rc4::Rc4::next"], timeout=1800, mem_gb=10, tiers=("thorough",)),
+        Kani("c16_g6_unwrap_total_p1", "GATE G6 (retry): gss_unwrapex on every 17-byte token with HMAC and RC4 replaced by oracles: value or error, no panic", bounds={"token_bytes": 17}, symbolic=["token", "oracle outputs"],
+             functions=["nla::ntlm::NTLMv2SecurityInterface::gss_unwrapex"], timeout=2400, mem_gb=30, tiers=("g6",)),
         MirJob("c16_mir_keys", "sign_key/seal_key use the client-to-server constants for the client role and server-to-client for the peer; build_security_interface wires encrypt=client sealing key, decrypt=server sealing key, signing=client signing key, verify=server signing key", mirjobs.ntlm_keys),
         MirJob("c16_mir_unwrap_order", "gss_unwrapex: RC4-decrypts the payload then the checksum with the decrypt cipher (keystream order), computes HMAC-MD5(verify_key, seq_num || plaintext), compares the first 8 bytes, returns the plaintext only on the match edge and Err(InvalidChecksum) on the mismatch edge",
                mirjobs.unwrap_order),
         MirJob("c16_mir_wrap_order", "gss_wrapex/mac: encrypts the data, then the first 8 bytes of HMAC-MD5(signing_key, seq_num || data) with the same cipher, emits version 1 / checksum / seq_num followed by the ciphertext and increments seq_num once", mirjobs.wrap_order),
     ]
-    return Prop("C16", [("nla/rc4.rs", "rc4.rs")], jobs,
+    return Prop("C16", [("nla/rc4.rs", "rc4.rs"), ("nla/ntlm.rs", "ntlm.rs")], jobs, lowerings=["L2"],
                 assumptions=[S6, DEV, "RC4 key schedule (Rc4::new) is not executed: states are arbitrary, which over-approximates the reachable ones",
                              "md5 / hmac-md5 crates are third-party (pinned by the repo's vector tests)"],
                 text="RC4 keystream generation decided for every cipher state by bounded model checking of the real Rc4::next/process; key derivation roles and the order of operations of sealing/unsealing (which cipher, which key, what is compared, which edge returns plaintext) decided on the MIR of sign_key/seal_key/build_security_interface/gss_unwrapex/gss_wrapex/mac.",
